@@ -186,9 +186,9 @@ package authboss
 //@   ensures[C17] no_secret_leak: secrets_clean
 //@
 //@ func (*bcryptHasher).GenerateHash
-//@   property C06 C17
+//@   property C06 C17 C19
 //@   -- (C17: what is stored is a hash that verifies the password, never the password itself)
-//@   ensures[C06,C17] generate_is_bcrypt: result.1 == nil ==> (hash_ok(result.0, password) && len(result.0) > 0)
+//@   ensures[C06,C17,C19] generate_is_bcrypt: result.1 == nil ==> (hash_ok(result.0, password) && len(result.0) > 0)
 //@   ensures[C06] error_returns_nothing: result.1 != nil ==> result.0 == ""
 //@   ensures[C17] no_secret_leak: secrets_clean
 //@
@@ -199,7 +199,10 @@ package authboss
 //@   ensures hidden_means_anonymous: (ctxpid(r) == nil && !sess_has(r, SessionKey)) ==> (result.0 == "" && result.1 == nil)
 //@
 //@ func (*Authboss).CurrentUser
-//@   property C09
+//@   property C09 C03 C04 C16
+//@   -- C03/C04/C16: the lock and confirm handlers find the account being authenticated through
+//@   -- the user the login flow put into the request context - whoever the session belongs to
+//@   ensures[C03,C04,C16] context_user_wins: ctxuser(r) != nil ==> (result.0 == ctxuser(r) && result.1 == nil && !emits Store.Load(_))
 //@   ensures hidden_means_anonymous: (ctxuser(r) == nil && ctxpid(r) == nil && !sess_has(r, SessionKey)) ==>
 //@       (result.0 == nil && result.1 == ErrUserNotFound && !emits Store.Load(_))
 //@
@@ -251,4 +254,20 @@ package authboss
 //@   option summary callers use this contract, not the body
 //@   invariant loop#1 any: true
 //@   ensures same_map: result == h
+//@
+//@ -- Localisation (callers use the summary "the text is a function of the key; texts of
+//@ -- different keys differ", which rests on the configured Localizer AND on this body: a missing
+//@ -- translation falls back to the default text, so a blank answer of the Localizer never makes
+//@ -- two messages equal).
+//@ func (*Authboss).Localizef
+//@   property C01 C02 C12 C13 C16
+//@   ensures default_when_unconfigured: a.Config.Core.Localizer == nil ==> result == fmtstr(key.Default, args)
+//@   ensures blank_translation_falls_back: result == "" ==> fmtstr(key.Default, args) == ""
 
+//
+//@ func (*Authboss).Init
+//@   property C11
+//@   -- frame: Init completes the configuration with the default hasher and nothing else of its
+//@   -- own; which client-state store is the session store and which the cookie store stays
+//@   -- what the integrator configured (modules are loaded through their own Init)
+//@   ensures[C11] stores_as_configured: each MemWrite(?p, _, _) => suffixof(".Hasher", p)
